@@ -526,8 +526,486 @@ def gen_handlers():
     return ''.join(out)
 
 
+# ---------------------------------------------------------------------------------------------
+# Control flow, translated: the coordinator's status machine (futures.py) and CountCallbackInvoker (utils.py)
+
+STATUS = {'not-started': '.notStarted', 'queued': '.queued', 'running': '.running',
+          'success': '.success', 'failed': '.failed', 'cancelled': '.cancelled'}
+
+
+class _Path:
+    """one symbolic path through a coordinator method"""
+
+    def __init__(self):
+        self.conds = []                 # [(lean Bool expr, taken?)]
+        self.fields = {'status': 'c.status', 'exc': 'c.exc', 'result': 'c.result'}
+        self.locals = {}                # name -> lean Bool expr / value expr
+        self.out = '.ok'
+        self.announce = False
+        self.stopped = False
+        self.locked = False
+        self.announce_locked = False    # announce_done called while the state lock is held
+        self.unlocked_write = False     # a field written without the state lock
+
+    def copy(self):
+        p = _Path()
+        p.conds = list(self.conds)
+        p.fields = dict(self.fields)
+        p.locals = dict(self.locals)
+        p.out, p.announce, p.stopped = self.out, self.announce, self.stopped
+        p.locked, p.announce_locked = self.locked, self.announce_locked
+        p.unlocked_write = self.unlocked_write
+        return p
+
+
+def _done_expr(status):
+    return '(Status.isDone %s)' % status
+
+
+class CoordTranslator:
+    """Symbolic execution of the loop-free methods of TransferCoordinator / TransferFuture that
+    change status / exception / result.  Anything outside the subset raises ExtractError."""
+
+    def __init__(self):
+        self.mod = module('futures')
+
+    # -- expressions ------------------------------------------------------------------
+    def value(self, p, node, args):
+        """lean expr of type Option Nat (exception / result values) or a status literal"""
+        if isinstance(node, ast.Constant) and node.value is None:
+            return 'none'
+        if isinstance(node, ast.Name):
+            if node.id in args:
+                return args[node.id]
+            if node.id in p.locals:
+                return p.locals[node.id]
+        if isinstance(node, ast.Call) and isinstance(node.func, ast.Name) and node.func.id in args:
+            # exc_type(msg): the exception the caller asked for
+            return args[node.func.id]
+        raise ExtractError('futures: coordinator value not understood: %s' % ast.dump(node)[:120])
+
+    def cond(self, p, node, args, on_future):
+        if isinstance(node, ast.UnaryOp) and isinstance(node.op, ast.Not):
+            return '(!%s)' % self.cond(p, node.operand, args, on_future)
+        if isinstance(node, ast.BoolOp):
+            op = ' || ' if isinstance(node.op, ast.Or) else ' && '
+            return '(' + op.join(self.cond(p, v, args, on_future) for v in node.values) + ')'
+        if isinstance(node, ast.Constant) and isinstance(node.value, bool):
+            return 'true' if node.value else 'false'
+        if isinstance(node, ast.Name):
+            if node.id in p.locals:
+                return p.locals[node.id]
+            if node.id in args:
+                return args[node.id]
+        if isinstance(node, ast.Call) and isinstance(node.func, ast.Attribute) and node.func.attr == 'done' \
+                and not node.args:
+            # self.done() of the coordinator, or the future's done() which forwards to it
+            self._check_done_defs()
+            return _done_expr(p.fields['status'])
+        if isinstance(node, ast.Compare) and len(node.ops) == 1 and isinstance(node.ops[0], (ast.Eq, ast.NotEq)):
+            left, right = node.left, node.comparators[0]
+            if isinstance(left, ast.Attribute) and left.attr in ('_status', 'status') and \
+                    isinstance(right, ast.Constant) and right.value in STATUS:
+                e = '(%s == %s)' % (p.fields['status'], STATUS[right.value])
+                return e if isinstance(node.ops[0], ast.Eq) else '(!%s)' % e
+        raise ExtractError('futures: coordinator condition not understood: %s' % ast.dump(node)[:160])
+
+    _done_checked = False
+
+    def _check_done_defs(self):
+        """`TransferCoordinator.done` must be `status in [the three done states]`, `status` must return
+        `_status`, and `TransferFuture.done` must forward to the coordinator."""
+        if self._done_checked:
+            return
+        f = self.mod.func('TransferCoordinator', 'done')
+        ret = [s for s in f.body if isinstance(s, ast.Return)]
+        ok = False
+        if len(ret) == 1 and isinstance(ret[0].value, ast.Compare) and isinstance(ret[0].value.ops[0], ast.In):
+            cmp_ = ret[0].value
+            try:
+                vals = sorted(ev(self.mod, cmp_.comparators[0]))
+            except Exception:
+                vals = None
+            left_ok = isinstance(cmp_.left, ast.Attribute) and cmp_.left.attr in ('status', '_status')
+            ok = left_ok and vals == ['cancelled', 'failed', 'success']
+        if not ok:
+            raise ExtractError('futures: TransferCoordinator.done is no longer `status in [failed, cancelled, success]`')
+        st = self.mod.func('TransferCoordinator', 'status')
+        r = [s for s in st.body if isinstance(s, ast.Return)]
+        if not (len(r) == 1 and isinstance(r[0].value, ast.Attribute) and r[0].value.attr == '_status'):
+            raise ExtractError('futures: TransferCoordinator.status no longer returns _status')
+        fd = self.mod.func('TransferFuture', 'done')
+        r = [s for s in fd.body if isinstance(s, ast.Return)]
+        if not (len(r) == 1 and isinstance(r[0].value, ast.Call) and isinstance(r[0].value.func, ast.Attribute)
+                and r[0].value.func.attr == 'done' and isinstance(r[0].value.func.value, ast.Attribute)
+                and r[0].value.func.value.attr == '_coordinator'):
+            raise ExtractError('futures: TransferFuture.done no longer forwards to the coordinator')
+        CoordTranslator._done_checked = True
+
+    # -- statements -------------------------------------------------------------------
+    def block(self, paths, stmts, args, cname, depth):
+        for s in stmts:
+            paths = self.stmt(paths, s, args, cname, depth)
+        return paths
+
+    def stmt(self, paths, s, args, cname, depth):
+        live = [p for p in paths if not p.stopped]
+        dead = [p for p in paths if p.stopped]
+        if not live:
+            return paths
+        if isinstance(s, ast.Expr) and isinstance(s.value, ast.Constant):
+            return paths                                              # docstring
+        if isinstance(s, ast.Expr) and isinstance(s.value, ast.Call):
+            call = s.value
+            if isinstance(call.func, ast.Attribute) and isinstance(call.func.value, ast.Name) and \
+                    call.func.value.id == 'logger':
+                return paths
+            return dead + self.call(live, call, args, cname, depth)
+        if isinstance(s, ast.With):
+            items = s.items
+            if len(items) == 1 and isinstance(items[0].context_expr, ast.Attribute) and \
+                    items[0].context_expr.attr == '_lock':
+                for p in live:
+                    if p.locked:
+                        raise ExtractError('futures: state lock taken twice on one path')
+                    p.locked = True
+                out = self.block(live, s.body, args, cname, depth)
+                for p in out:
+                    p.locked = False
+                return dead + out
+            raise ExtractError('futures: unexpected `with` in a coordinator method')
+        if isinstance(s, ast.If):
+            out = []
+            for p in live:
+                c = self.cond(p, s.test, args, cname == 'TransferFuture')
+                pt, pf = p.copy(), p.copy()
+                pt.conds.append((c, True))
+                pf.conds.append((c, False))
+                out += self.block([pt], s.body, args, cname, depth)
+                out += self.block([pf], s.orelse, args, cname, depth)
+            return dead + out
+        if isinstance(s, ast.Assign) and len(s.targets) == 1:
+            t = s.targets[0]
+            if isinstance(t, ast.Attribute) and isinstance(t.value, ast.Name) and t.value.id == 'self':
+                for p in live:
+                    if not p.locked:
+                        p.unlocked_write = True
+                    if t.attr == '_status':
+                        if isinstance(s.value, ast.Constant) and s.value.value in STATUS:
+                            p.fields['status'] = STATUS[s.value.value]
+                        elif isinstance(s.value, ast.Name) and s.value.id in args:
+                            p.fields['status'] = args[s.value.id]
+                        else:
+                            raise ExtractError('futures: status assigned something unexpected')
+                    elif t.attr == '_exception':
+                        p.fields['exc'] = self.value(p, s.value, args)
+                    elif t.attr == '_result':
+                        p.fields['result'] = self.value(p, s.value, args)
+                    else:
+                        raise ExtractError('futures: coordinator method assigns self.%s' % t.attr)
+                return dead + live
+            if isinstance(t, ast.Name):
+                # a boolean local: a literal, or a condition evaluated at this point of the path
+                for p in live:
+                    p.locals[t.id] = self.cond(p, s.value, args, cname == 'TransferFuture')
+                return dead + live
+        if isinstance(s, ast.Raise):
+            exc = s.exc
+            name = exc.func.id if isinstance(exc, ast.Call) and isinstance(exc.func, ast.Name) else None
+            kinds = {'RuntimeError': '.runtimeError', 'TransferNotDoneError': '.notDoneError'}
+            if name not in kinds:
+                raise ExtractError('futures: coordinator method raises %s' % name)
+            for p in live:
+                p.out = kinds[name]
+                p.stopped = True
+            return dead + live
+        raise ExtractError('futures: statement outside the translated subset: %s' % ast.dump(s)[:160])
+
+    def call(self, live, call, args, cname, depth):
+        if depth > 3:
+            raise ExtractError('futures: coordinator call chain too deep')
+        f = call.func
+        if not isinstance(f, ast.Attribute):
+            raise ExtractError('futures: call not understood')
+        target_cls = None
+        if isinstance(f.value, ast.Name) and f.value.id == 'self':
+            target_cls = cname
+        elif isinstance(f.value, ast.Attribute) and f.value.attr == '_coordinator':
+            target_cls = 'TransferCoordinator'
+        if target_cls is None:
+            raise ExtractError('futures: call on %s not understood' % ast.dump(f.value)[:80])
+        if f.attr == 'announce_done':
+            for p in live:
+                if p.announce:
+                    raise ExtractError('futures: announce_done called twice on one path')
+                p.announce = True
+                p.announce_locked = p.locked
+            return live
+        fn = self.mod.func(target_cls, f.attr)
+        params = [a.arg for a in fn.args.args[1:]]
+        defaults = fn.args.defaults
+        out = []
+        for p in live:
+            new_args = {}
+            for i, name in enumerate(params):
+                if i < len(call.args):
+                    node = call.args[i]
+                else:
+                    kw = [k.value for k in call.keywords if k.arg == name]
+                    if kw:
+                        node = kw[0]
+                    else:
+                        di = i - (len(params) - len(defaults))
+                        if di < 0:
+                            raise ExtractError('futures: missing argument %s' % name)
+                        node = defaults[di]
+                new_args[name] = self.arg_value(p, node, args)
+            out += self.block([p], fn.body, new_args, target_cls, depth + 1)
+        return out
+
+    def arg_value(self, p, node, args):
+        if isinstance(node, ast.Constant) and isinstance(node.value, bool):
+            return 'true' if node.value else 'false'
+        if isinstance(node, ast.Constant) and node.value in STATUS:
+            return STATUS[node.value]
+        if isinstance(node, ast.Name) and node.id in args:
+            return args[node.id]
+        if isinstance(node, ast.Constant) and node.value is None:
+            return 'none'
+        raise ExtractError('futures: argument not understood: %s' % ast.dump(node)[:80])
+
+    # -- emission ---------------------------------------------------------------------
+    def method(self, cname, fname, args):
+        fn = self.mod.func(cname, fname)
+        paths = self.block([_Path()], fn.body, args, cname, 0)
+        return paths
+
+    def emit(self, paths):
+        """nested if-then-else over the path conditions, in source order"""
+        def rec(ps, k):
+            if len(ps) == 1 and len(ps[0].conds) <= k:
+                p = ps[0]
+                st = '{ c with status := %s, exc := %s, result := %s }' % (
+                    p.fields['status'], p.fields['exc'], p.fields['result'])
+                if p.announce:
+                    st = 'announce %s' % st
+                return '(%s, %s)' % (st, p.out)
+            c = ps[0].conds[k][0]
+            yes = [p for p in ps if p.conds[k] == (c, True)]
+            no = [p for p in ps if p.conds[k] == (c, False)]
+            if len(yes) + len(no) != len(ps) or not yes or not no:
+                raise ExtractError('futures: coordinator paths do not form a decision tree')
+            return '(if %s then %s else %s)' % (c, rec(yes, k + 1), rec(no, k + 1))
+        return rec(paths, 0)
+
+
+OPS = [
+    # (Op constructor pattern, class, method, argument map)
+    ('.setResult r', 'TransferCoordinator', 'set_result', {'result': '(some r)'}),
+    ('.setException e ov', 'TransferCoordinator', 'set_exception', {'exception': '(some e)', 'override': 'ov'}),
+    ('.cancel e', 'TransferCoordinator', 'cancel', {'msg': 'none', 'exc_type': '(some e)'}),
+    ('.toQueued', 'TransferCoordinator', 'set_status_to_queued', {}),
+    ('.toRunning', 'TransferCoordinator', 'set_status_to_running', {}),
+    ('.futureSetException e', 'TransferFuture', 'set_exception', {'exception': '(some e)'}),
+]
+
+
+def announce_order(mod):
+    """the statements of announce_done in order, conditions included (text form, compared in Lean)"""
+    fn = mod.func('TransferCoordinator', 'announce_done')
+    rows = []
+
+    def walk(stmts, prefix):
+        for st in stmts:
+            if isinstance(st, ast.Expr) and isinstance(st.value, ast.Constant):
+                continue
+            if isinstance(st, ast.Expr) and isinstance(st.value, ast.Call) and isinstance(st.value.func, ast.Attribute):
+                f = st.value.func
+                if isinstance(f.value, ast.Name) and f.value.id == 'logger':
+                    continue
+                rows.append(prefix + ast.unparse(f).replace('self.', ''))
+            elif isinstance(st, ast.If) and not st.orelse:
+                walk(st.body, prefix + 'if ' + ast.unparse(st.test).replace('self.', '').replace('"', "'") + ': ')
+            else:
+                raise ExtractError('futures: announce_done has a statement outside the translated subset')
+    walk(fn.body, '')
+    # the two runners: take their lock, run the list, empty it
+    for runner, lock, lst in (('_run_failure_cleanups', '_failure_cleanups_lock', '_failure_cleanups'),
+                              ('_run_done_callbacks', '_done_callbacks_lock', '_done_callbacks')):
+        r = mod.func('TransferCoordinator', runner)
+        body = [st for st in r.body if not (isinstance(st, ast.Expr) and isinstance(st.value, ast.Constant))]
+        ok = len(body) == 1 and isinstance(body[0], ast.With) and lock in ast.unparse(body[0].items[0].context_expr)
+        if ok:
+            inner = body[0].body
+            ok = len(inner) == 2 and '_run_callback' in ast.unparse(inner[0]) and \
+                lst.lstrip('_') in ast.unparse(inner[0]) and \
+                isinstance(inner[1], ast.Assign) and ast.unparse(inner[1].targets[0]) == 'self.' + lst and \
+                ast.unparse(inner[1].value) == '[]'
+        if not ok:
+            raise ExtractError('futures: %s is no longer `with lock: run the list; empty it`' % runner)
+    return rows
+
+
+def gen_coordstep():
+    CoordTranslator._done_checked = False
+    tr = CoordTranslator()
+    out = [HEADER, 'import S3V.Model.Coord\n', 'namespace S3V.Gen\nopen S3V.Coord\n']
+    out.append('/-- The status / exception / result part of every mutator of `TransferCoordinator` (and of\n'
+               '`TransferFuture.set_exception`), translated path by path from futures.py. `none` for the operations\n'
+               'that do not touch these fields (callback registration, a bare `announce_done`). -/')
+    out.append('def coordStep (c : Coord) : Op → Option (Coord × Out)')
+    locked = []
+    unlocked_writes = []
+    for pat, cname, fname, args in OPS:
+        paths = tr.method(cname, fname, args)
+        out.append('  | %s => some %s' % (pat, tr.emit(paths)))
+        for p in paths:
+            if p.announce and p.announce_locked:
+                locked.append(fname)
+            if p.unlocked_write:
+                unlocked_writes.append(fname)
+    out.append('  | _ => none\n')
+    out.append('/-- methods that call `announce_done` while holding the state lock (D3: must be empty) -/')
+    out.append('def coordAnnouncesUnderLock : List String := [%s]' % ', '.join('"%s"' % n for n in sorted(set(locked))))
+    out.append('/-- methods that write status / exception / result without holding the state lock -/')
+    out.append('def coordWritesWithoutLock : List String := [%s]' % ', '.join('"%s"' % n for n in sorted(set(unlocked_writes))))
+    out.append('/-- `announce_done`, statement by statement -/')
+    out.append('def announceOrder : List String := [%s]' % ', '.join('"%s"' % n for n in announce_order(tr.mod)))
+    out.append('end S3V.Gen\n')
+    return '\n'.join(out)
+
+
+
+# ---------------------------------------------------------------------------------------------
+# CountCallbackInvoker (utils.py): increment / decrement / finalize, path by path
+
+class _CPath:
+    def __init__(self):
+        self.conds = []
+        self.count = 'c.count'
+        self.finalized = 'c.finalized'
+        self.fired = False
+        self.raised = False
+        self.locked = False
+        self.unlocked = False
+
+    def copy(self):
+        p = _CPath()
+        p.__dict__.update({k: (list(v) if isinstance(v, list) else v) for k, v in self.__dict__.items()})
+        return p
+
+
+def _cci_cond(p, node):
+    if isinstance(node, ast.BoolOp):
+        op = ' || ' if isinstance(node.op, ast.Or) else ' && '
+        return '(' + op.join(_cci_cond(p, v) for v in node.values) + ')'
+    if isinstance(node, ast.UnaryOp) and isinstance(node.op, ast.Not):
+        return '(!%s)' % _cci_cond(p, node.operand)
+    if isinstance(node, ast.Attribute) and node.attr == '_is_finalized':
+        return p.finalized
+    if isinstance(node, ast.Compare) and len(node.ops) == 1 and isinstance(node.left, ast.Attribute) and \
+            node.left.attr == '_count' and isinstance(node.comparators[0], ast.Constant) and \
+            isinstance(node.comparators[0].value, int):
+        k = node.comparators[0].value
+        ops = {ast.Eq: '(%s == %d)', ast.NotEq: '(%s != %d)', ast.Gt: '(decide (%s > %d))', ast.LtE: '(decide (%s ≤ %d))'}
+        for t, fmt in ops.items():
+            if isinstance(node.ops[0], t):
+                return fmt % (p.count, k)
+    raise ExtractError('utils: CountCallbackInvoker condition not understood: %s' % ast.dump(node)[:120])
+
+
+def _cci_block(paths, stmts):
+    for s in stmts:
+        nxt = []
+        for p in paths:
+            if p.raised:
+                nxt.append(p)
+                continue
+            if isinstance(s, ast.Expr) and isinstance(s.value, ast.Constant):
+                nxt.append(p)
+            elif isinstance(s, ast.With) and len(s.items) == 1 and isinstance(s.items[0].context_expr, ast.Attribute) \
+                    and s.items[0].context_expr.attr == '_lock':
+                p.locked = True
+                out = _cci_block([p], s.body)
+                for q in out:
+                    q.locked = False
+                nxt += out
+            elif isinstance(s, ast.If):
+                c = _cci_cond(p, s.test)
+                pt, pf = p.copy(), p.copy()
+                pt.conds.append((c, True))
+                pf.conds.append((c, False))
+                nxt += _cci_block([pt], s.body) + _cci_block([pf], s.orelse)
+            elif isinstance(s, ast.Raise):
+                if not (isinstance(s.exc, ast.Call) and isinstance(s.exc.func, ast.Name) and s.exc.func.id == 'RuntimeError'):
+                    raise ExtractError('utils: CountCallbackInvoker raises something else than RuntimeError')
+                p.raised = True
+                nxt.append(p)
+            elif isinstance(s, ast.AugAssign) and isinstance(s.target, ast.Attribute) and s.target.attr == '_count' \
+                    and isinstance(s.value, ast.Constant) and s.value.value == 1 and isinstance(s.op, (ast.Add, ast.Sub)):
+                if not p.locked:
+                    p.unlocked = True
+                p.count = '(%s %s 1)' % (p.count, '+' if isinstance(s.op, ast.Add) else '-')
+                nxt.append(p)
+            elif isinstance(s, ast.Assign) and len(s.targets) == 1 and isinstance(s.targets[0], ast.Attribute) \
+                    and s.targets[0].attr == '_is_finalized' and isinstance(s.value, ast.Constant) \
+                    and isinstance(s.value.value, bool):
+                if not p.locked:
+                    p.unlocked = True
+                p.finalized = 'true' if s.value.value else 'false'
+                nxt.append(p)
+            elif isinstance(s, ast.Expr) and isinstance(s.value, ast.Call) and isinstance(s.value.func, ast.Attribute) \
+                    and s.value.func.attr == '_callback' and not s.value.args:
+                if p.fired:
+                    raise ExtractError('utils: CountCallbackInvoker calls the callback twice on one path')
+                if not p.locked:
+                    p.unlocked = True
+                p.fired = True
+                nxt.append(p)
+            else:
+                raise ExtractError('utils: CountCallbackInvoker statement outside the translated subset: %s'
+                                   % ast.dump(s)[:120])
+        paths = nxt
+    return paths
+
+
+def _cci_emit(ps, k=0):
+    if len(ps) == 1 and len(ps[0].conds) <= k:
+        p = ps[0]
+        if p.raised:
+            return '(c, .runtimeError)'
+        st = '{ c with count := %s, finalized := %s, fired := %s }' % (
+            p.count, p.finalized, '(c.fired + 1)' if p.fired else 'c.fired')
+        return '(%s, %s)' % (st, '.fired' if p.fired else '.ok')
+    c = ps[0].conds[k][0]
+    yes = [p for p in ps if p.conds[k] == (c, True)]
+    no = [p for p in ps if p.conds[k] == (c, False)]
+    if len(yes) + len(no) != len(ps) or not yes or not no:
+        raise ExtractError('utils: CountCallbackInvoker paths do not form a decision tree')
+    return '(if %s then %s else %s)' % (c, _cci_emit(yes, k + 1), _cci_emit(no, k + 1))
+
+
+def gen_cci():
+    mod = module('utils')
+    out = [HEADER, 'import S3V.Model.Sema\n', 'namespace S3V.Gen\nopen S3V.Sema\n']
+    unlocked = []
+    for lean, fname in (('cciIncrement', 'increment'), ('cciDecrement', 'decrement'), ('cciFinalize', 'finalize')):
+        fn = mod.func('CountCallbackInvoker', fname)
+        if len(fn.args.args) != 1:
+            raise ExtractError('utils: CountCallbackInvoker.%s takes arguments now' % fname)
+        paths = _cci_block([_CPath()], fn.body)
+        out.append('/-- `CountCallbackInvoker.%s`, translated path by path from utils.py -/' % fname)
+        out.append('def %s (c : Cci) : Cci × CciOut := %s' % (lean, _cci_emit(paths)))
+        if any(p.unlocked for p in paths):
+            unlocked.append(fname)
+    out.append('/-- methods touching the counter, the flag or the callback outside the lock -/')
+    out.append('def cciWithoutLock : List String := [%s]' % ', '.join('"%s"' % n for n in unlocked))
+    out.append('end S3V.Gen\n')
+    return '\n'.join(out)
+
+
 GENERATORS = {'Consts': gen_consts, 'ArgTables': gen_argtables, 'S3Shapes': gen_s3shapes, 'Wiring': gen_wiring,
-              'Handlers': gen_handlers}
+              'Handlers': gen_handlers, 'CoordStep': gen_coordstep, 'Cci': gen_cci}
 
 
 def extract_all():
